@@ -296,7 +296,15 @@ func runC12(ctx *Ctx, idx int) {
 					}
 					recv.RangeGet("k2")
 					recv.Get("k3")
-					rerr = recv.Unmarshal(stream)
+					// the three ways the exported, embedded trie can be loaded
+					switch (idx + ri) % 3 {
+					case 0:
+						rerr = recv.Unmarshal(stream)
+					case 1:
+						rerr = recv.SlimTrie.Unmarshal(stream)
+					default:
+						rerr = proto.Unmarshal(stream, &recv.SlimTrie)
+					}
 				})
 				if pv != nil || rerr != nil || recv == nil {
 					viol("load-failed", "", map[string]interface{}{"receiver": kind, "panic": fmt.Sprint(pv), "error": fmt.Sprint(rerr)})
